@@ -114,4 +114,80 @@ def endTime (now : Int) : List Op → Int
   | [] => now
   | op :: rest => endTime op.tOut rest
 
+/-! ### The users of the provider (core/server)
+
+  Three functions obtain keys from the provider: `newNTSKEMsg` (core/server/ntske.go, the answer
+  of the NTS-KE server), and the NTS branch of the receive loops of `runIPServer` and
+  `runSCIONServer`. All three seal fresh cookies under the value of a `provider.Current()` call
+  made in the same call / loop iteration, and the listeners open a request's cookie only with
+  the key `provider.Get(id)` returned (second result tested). These usage facts are extracted
+  from /repo on every run (`Gen.Server.c12KeyUse_*`, `c12ProviderUses`) and pinned in
+  Props/C12.lean. -/
+
+/-- One use of the provider.
+  * `ke t1 t2`: `newNTSKEMsg` — `key := provider.Current()` (clock readings `t1 ≤ t2`); the
+    cookies of the key exchange answer are sealed under `key`.
+  * `ntp id t auth c1 c2`: one iteration of a listener's receive loop on an NTS request whose
+    first cookie names key `id` — `provider.Get(id)` at `t`; `continue` if not found; the cookie
+    is opened with that key and the request authenticated (`auth`: outcome of everything
+    between the two provider calls, `continue` if it fails); then `key := provider.Current()`
+    (readings `c1 ≤ c2`) and the fresh cookies of the reply are sealed under `key`. -/
+inductive Use where
+  | ke (t1 t2 : Int)
+  | ntp (id : Int) (t : Int) (auth : Bool) (c1 c2 : Int)
+deriving Repr
+
+/-- What one use did with keys: the key the request's cookie was opened with, and the key the
+    cookies handed out were sealed under. -/
+structure Outcome where
+  opened : Option Key
+  sealedWith : Option Key
+deriving Repr
+
+/-- The provider calls a use makes in state `s` (`Get` does not change the state). -/
+def Use.toOps (s : State) : Use → List Op
+  | .ke t1 t2 => [.current t1 t2]
+  | .ntp id t auth c1 c2 =>
+    if (get s id t).isSome && auth then [.get id t, .current c1 c2] else [.get id t]
+
+/-- State change and outcome of one use. -/
+def useStep (P : Params) (s : State) : Use → State × Outcome
+  | .ke t1 t2 => let r := current P s t1 t2; (r.1, { opened := none, sealedWith := some r.2 })
+  | .ntp id t auth c1 c2 =>
+    match get s id t with
+    | none => (s, { opened := none, sealedWith := none })
+    | some k =>
+      if auth then
+        let r := current P s c1 c2
+        (r.1, { opened := some k, sealedWith := some r.2 })
+      else (s, { opened := some k, sealedWith := none })
+
+/-- State after a history of uses. -/
+def useExec (P : Params) (s : State) : List Use → State
+  | [] => s
+  | u :: rest => useExec P (useStep P s u).1 rest
+
+/-- The provider calls of a history of uses, in order. -/
+def flat (P : Params) (s : State) : List Use → List Op
+  | [] => []
+  | u :: rest => u.toOps s ++ flat P (useStep P s u).1 rest
+
+/-! What the usage facts exclude (seeded C12-7, C12-8): a listener that keeps the sealing key in
+    a variable outside its receive loop and refreshes it only when it is no longer valid, and a
+    key exchange that takes the newest key without renewing it. Both seal under keys older than
+    the renewal interval (`C12_use_cached_key_stale`, `C12_use_newest_key_stale`). -/
+
+/-- The listener of seeded C12-7: `if !cookieKey.IsValidAt(now) { cookieKey = provider.Current() }`
+    with `cookieKey` living across iterations (`cache`). Returns provider state, new cache and
+    the sealing key. -/
+def sealCachedOld (P : Params) (s : State) (cache : Key) (t : Int) : State × Key × Key :=
+  if cache.validAt t then (s, cache, cache)
+  else let r := current P s t t; (r.1, r.2, r.2)
+
+/-- `Provider.Newest()` of seeded C12-8 followed by the fallback to `Current()`. -/
+def sealNewestOld (P : Params) (s : State) (t : Int) : State × Key :=
+  match find s.keys s.currentId with
+  | some k => if k.validAt t then (s, k) else current P s t t
+  | none => current P s t t
+
 end ScionTime.Provider
